@@ -73,6 +73,9 @@ def gen_cases(p, deg, npairs, rnd, maxpad=2, maxshift=2, ring=False):
             cases.append(dict(base, fn='powmod', n=rnd.randint(-3, 5)))
             cases.append(dict(base, fn='invert'))
         cases.append(dict(base, fn='gcd'))
+    for c in cases:
+        if c['fn'] in ('irr', 'powmod', 'gcd', 'invert'):
+            c['timeout'] = 60.0         # many rounds of secure division: slow in virtual time for m >= 4
     if ring:
         cases = [c for c in cases if c['fn'] in RING]
     return cases
